@@ -725,6 +725,40 @@ func genCase(t *rapid.T) Case {
 			c.Temporal[i].InText = rapid.Bool().Draw(t, "intext")
 		}
 	}
+	if rapid.IntRange(0, 2).Draw(t, "layered") == 0 {
+		g.genLayers()
+	}
 	c.Text = c.Source()
 	return c
+}
+
+// genLayers spreads the base facts over the two layers of a teeing store: every fact lands in the base or the
+// output layer by a coin; an atom with two or more intervals mostly (7 of 8) gets at least one interval in each
+// layer (one of them is taken out of the program text if need be).
+func (g *gctx) genLayers() {
+	c := g.c
+	c.Layered = true
+	type atomID struct {
+		pred string
+		arg  int64
+	}
+	byAtom := map[atomID][]int{}
+	var order []atomID
+	for i := range c.Temporal {
+		c.Temporal[i].Out = rapid.Bool().Draw(g.t, "outlayer")
+		k := atomID{c.Temporal[i].Pred, c.Temporal[i].Args[0]}
+		if _, ok := byAtom[k]; !ok {
+			order = append(order, k)
+		}
+		byAtom[k] = append(byAtom[k], i)
+	}
+	for _, k := range order {
+		idx := byAtom[k]
+		if len(idx) < 2 || rapid.IntRange(0, 7).Draw(g.t, "nosplit") == 0 {
+			continue
+		}
+		pair := rapid.Permutation(idx).Draw(g.t, "splitpair")
+		c.Temporal[pair[0]].Out, c.Temporal[pair[0]].InText = false, false
+		c.Temporal[pair[1]].Out = true
+	}
 }
